@@ -178,6 +178,7 @@ def main(tier, seed):
         e.obligation("updated-mean-within-bounds", lambda i, o, lbv=lbv, ubv=ubv: [S.le(S.SA(lbv), S.SA(o[0])), S.le(S.SA(o[0]), S.SA(ubv))])
 
     _pets_planner_bounds(rep, sess, tier, seed)
+    _mpc_action(rep, sess, tier, seed)
     _provenance(rep, tier, seed)
     if tier == "thorough":
         bad = sess.cross_check()
@@ -210,6 +211,36 @@ def _pets_planner_bounds(rep, sess, tier, seed):
         e.obligation("planner-candidates-within-each-dimension's-own-bounds",
                      lambda i, o, d=d: S.le(S.bcast(S.SA(i[0]).reshape(1, 1, d), (n_samples, H, d)), S.SA(o)) & S.le(S.SA(o), S.bcast(S.SA(i[1]).reshape(1, 1, d), (n_samples, H, d))),
                      split=True, site="pets._init_mpc_optimizer_cem:candidates-within-action-bounds")
+
+
+def _mpc_action(rep, sess, tier, seed):
+    from rl_blox.algorithm import pets
+    H, d = 2, 2
+
+    def f(low, high, plan_opt, prev_plan, key):
+        box = FakeBox(low, high)
+        cfg = pets.PETSMPCConfig(plan_horizon=H, n_particles=1, n_samples=1, n_opt_iter=1, init_with_previous_plan=True, reward_model=None, action_space_shape=(d,),
+                                 avg_act=0.5 * (high + low), init_var=jnp.ones((H, d)), sample_fn=None, update_fn=None)
+        st = pets.PETSMPCState(dynamics_model=None, prev_plan=prev_plan, key=key)
+        seen = {}
+
+        def opt(model, plan, k, obs):
+            seen["start"] = plan
+            return plan_opt
+        a = pets.mpc_action(cfg, st, opt, jnp.zeros(3))
+        return a, st.prev_plan, seen["start"]
+    low0, high0 = jnp.asarray([1.0, 0.5]), jnp.asarray([3.0, 1.5])
+    ex = (low0, high0, jnp.ones((H, d)), jnp.ones((H, d)), jax.random.key(seed))
+    e = E1(rep, sess, f, ex, "pets.mpc_action[H=2,d=2]", validate_sets=[ex])
+    low, high, plan, prev, key = e.ins
+    lo_b, hi_b = S.bcast(S.SA(low).reshape(1, d), (H, d)), S.bcast(S.SA(high).reshape(1, d), (H, d))
+    e.add_hyp(S.SA(low) < S.SA(high), lo_b <= S.SA(plan), S.SA(plan) <= hi_b, lo_b <= S.SA(prev), S.SA(prev) <= hi_b)
+    e.check_reachable()
+    e.obligation("executed-action-is-the-first-action-of-the-optimised-plan", lambda i, o: S.close(S.SA(o[0]), S.SA(i[2])[0]))
+    e.obligation("warm-start-plan-for-the-next-call-stays-inside-the-bounds",
+                 lambda i, o: S.le(S.bcast(S.SA(i[0]).reshape(1, d), (H, d)), S.SA(o[1])) & S.le(S.SA(o[1]), S.bcast(S.SA(i[1]).reshape(1, d), (H, d))), split=True,
+                 site="pets.mpc_action:warm-start-plan-within-bounds")
+    e.obligation("planner-starts-from-the-previous-plan", lambda i, o: S.close(S.SA(o[2]), S.SA(i[3])))
 
 
 def _provenance(rep, tier, seed):
